@@ -6,6 +6,7 @@ import Ipv8.C13.TableD
 import Ipv8.C13.TableE
 import Ipv8.C13.TableF
 import Ipv8.C13.TableG
+import Ipv8.C13.TableH
 
 namespace Ipv8.C13
 
